@@ -3,7 +3,7 @@
    closed by [exact lemma] (or a one-line instantiation), non-vacuity Examples,
    and Print Assumptions. *)
 From RJ Require Import Base.Outcome Model.Token Model.Ast Model.Parser Model.Print
-  Proofs.Parser_proofs Proofs.Parser_inv Gen.PrecTable.
+  Proofs.Parser_proofs Proofs.Parser_inv Proofs.Parser_rt3 Proofs.Parser_rt_cor Gen.PrecTable.
 Local Open Scope list_scope.
 Local Open Scope N_scope.
 
@@ -71,12 +71,27 @@ Theorem C15_slice_layouts :
   idx [t1; co; t2; co; t3] = sl (Some e1) (Some e2) (Some e3).
 Proof. exact slice_layouts. Qed.
 
-(* left associativity of every binary operator, chains of up to 8 operators (by
-   computation); arbitrary length is [left_assoc_goal], not proved in this round *)
-Theorem C15_left_assoc_partial : forall op n, (n <= 8)%nat ->
+(* left associativity of every binary operator, chains of ANY length *)
+Theorem C15_left_assoc : forall op n,
   parse_tree spec_prec (chain_toks op n) = Ok (chain_tree op n).
-Proof. exact left_assoc_bounded. Qed.
-Definition C15_left_assoc_goal : Prop := left_assoc_goal.
+Proof. exact left_assoc. Qed.
+
+(* print / re-parse round trip for every well-parenthesised tree built from the
+   constructors accepted by [core_expr] (unbounded size and nesting) *)
+Theorem C15_parse_print_roundtrip_partial : forall e, core_expr e = true -> Print.wp e = true ->
+  parse_tree spec_prec (print_tokens e) = Ok (strip_spans e).
+Proof. exact parse_print_roundtrip_partial. Qed.
+
+(* the fully parenthesised print of a covered tree parses to the same tree modulo Paren *)
+Theorem C15_redundant_parens_partial : forall e, core_expr e = true ->
+  exists e', parse_tree spec_prec (print_tokens (full_paren e)) = Ok e' /\
+             strip_paren e' = strip_paren (strip_spans e).
+Proof. exact redundant_parens_partial. Qed.
+
+Example C15_roundtrip_nonvacuous :
+  let e := bin (un UMinus (EParen sp0 (bin a_ BAdd b_))) BMul (EParen sp0 (insup (bin c_ BLt a_))) in
+  core_expr e = true /\ Print.wp e = true /\ Print.wp (bin (bin a_ BAdd b_) BMul c_) = false.
+Proof. vm_compute. repeat split. Qed.
 
 (* the Rust parser recurses on the native stack once per nesting level of
    `error` (likewise `{a:`, `local`, `if`, `function`): for every depth there is an
@@ -126,8 +141,9 @@ Example C15_wf_nonvacuous :
   (exists e, parse spec_prec ex_bad = Err e /\ pe_span e = (4, 5)).
 Proof. split; [exact (proj1 ex_toks_wf)|]. split; [exact (proj2 ex_toks_wf)|]. split; [exact ex_toks_ok | exact ex_bad_err]. Qed.
 
-(* the full round-trip statement (DESIGN §5): not proved for unbounded trees in this
-   round; it is exercised on every run through the extracted printer+parser (K, `rt`) *)
+(* the full round-trip statement (DESIGN §5): proved above for the constructors of
+   [core_expr]; for the remaining ones it is exercised on every run through the
+   extracted printer+parser (K, `rt`) *)
 Definition C15_goal : Prop := forall e, Print.wp e = true ->
   parse_tree spec_prec (print_tokens e) = Ok (strip_spans e).
 Definition C15_goal_redundant : Prop := forall e, Print.wp e = true ->
@@ -141,7 +157,10 @@ Print Assumptions C15_postfix_binds_tightest.
 Print Assumptions C15_postfix_chain.
 Print Assumptions C15_in_super_form.
 Print Assumptions C15_slice_layouts.
-Print Assumptions C15_left_assoc_partial.
+Print Assumptions C15_left_assoc.
+Print Assumptions C15_parse_print_roundtrip_partial.
+Print Assumptions C15_redundant_parens_partial.
+Print Assumptions C15_roundtrip_nonvacuous.
 Print Assumptions C15_native_depth_unbounded.
 Print Assumptions C15_parse_error_at_token.
 Print Assumptions C15_parse_error_nonvacuous.
